@@ -42,8 +42,13 @@ manifest = {
         'add_only': True,
     },
     'engines': [
-        {'name': 'runner', 'path': 'vlib/runner.py', 'serves_properties': props, 'kind_free_text': 'plans batches, runs each in a fresh worker subprocess against /repo working tree, aggregates counters, attributes known findings, writes evidence'},
-        {'name': 'stepping-driver', 'path': 'vlib/driver.py', 'serves_properties': ['C01', 'C02', 'C04', 'C05', 'C06', 'C07', 'C08', 'C09'], 'kind_free_text': 'single-threaded fire/flush/tick stepping with ghost log; quiescence-decided bounded liveness'},
+        {'name': 'runner', 'path': 'vlib/runner.py', 'serves_properties': props, 'kind_free_text': 'plans batches, runs each in a fresh worker subprocess against /repo working tree, aggregates counters, attributes known findings through neutralised twins, writes evidence'},
+        {'name': 'stepping-driver', 'path': 'vlib/prog.py', 'serves_properties': ['C01', 'C02', 'C04', 'C05', 'C06', 'C07', 'C08'], 'kind_free_text': 'generated handler programs / histories on the real dispatcher with a ghost log; fire/flush/tick stepping or the real run() in the checking thread; quiescence-decided bounded liveness; CPU-time budget for non-termination'},
+        {'name': 'virtual-clock', 'path': 'vlib/vclock.py', 'serves_properties': ['C09'], 'kind_free_text': 'time.time / threading.Event doubles bound by the repository at import; every idle wait logged and turned into an exact virtual time advance'},
+        {'name': 'controlled-scheduler', 'path': 'vlib/sched.py', 'serves_properties': ['C03', 'C08'], 'kind_free_text': 'real threads serialised by a baton; sys.monitoring LINE events under circuits/core are pre-emption points; RLock/Event/select/poll/epoll doubles; systematic 1-2 pre-emption schedules and random schedules; logical lost-wake-up predicate'},
+        {'name': 'scripted-io', 'path': 'checks/c11.py', 'serves_properties': ['C11'], 'kind_free_text': 'socket.socket subclass with scripted send() outcomes, scripted poller, by-name wrapper of os.write for File: exhaustive fault scripts'},
+        {'name': 'loopback-stepping', 'path': 'checks/c10.py checks/c12.py vlib/residue.py', 'serves_properties': ['C10', 'C12'], 'kind_free_text': 'real pollers and TCP/UNIX servers over loopback sockets owned by the harness, stepped with tick(0); set-model / automaton oracles; reachability-based residue scan'},
+        {'name': 'event-injection', 'path': 'vlib/inject.py', 'serves_properties': ['C13', 'C14', 'C15', 'C16', 'C17', 'C18', 'C19', 'C20'], 'kind_free_text': 'protocol components driven by injected read/request events under a recording root, compared with independent reference codecs (vlib/ref_*.py) and differential (one-piece vs segmented) delivery'},
     ],
     'checks': checks,
     'not_applicable': na,
